@@ -7,4 +7,5 @@ export CARGO_TARGET_DIR="$(pwd)/target"
 (cd harness && cargo build --release --offline --bin vh)
 echo "setup ok"
 (cd sched && cargo build --release --offline)
+(cd alias && CARGO_TARGET_DIR="$(pwd)/../target/alias" cargo build --offline)
 echo "setup complete"
